@@ -426,7 +426,8 @@ class Expr:
             value, like = self.operands
             r = (
                 "z_" + self.kind,  # prefix `z_` ensures that constants are sorted as largest kinds
-                value.key if isinstance(value, Expr) else (value, type(value).__name__),
+                # str(value) distinguishes -0.0 from 0.0 (these compare equal but are different constants)
+                value.key if isinstance(value, Expr) else (value, type(value).__name__, str(value)),
                 like.key,
             )
         else:
